@@ -110,7 +110,7 @@ def _vm_goal(case, out):
             return ("match %s with Some (rs, _, log, _) => (rs, batches log) = (%s, %s) | None => False end"
                     % (call, _vm_results(o[4]), _vm_lst(b, "(nat * list nat)")))
         if p[0] == "X":
-            if "*" in out:
+            if "*" in out or out.startswith("UNJUDGED"):
                 return None
             r0 = "None" if p[2] == "none" else "(Some %s)" % _vm_lst([] if p[2] == "-" else ["(mkDesc %s 0 0)" % k for k in p[2].split(",")], "desc")
             call = "vis_summary %s %s %s %s" % ("true" if p[1][0] == "1" else "false", r0, _vm_changes(p[3]), _vm_vis(p[4:]))
